@@ -47,6 +47,7 @@ type op struct {
 	addr       uintptr
 	site       string
 	label      string
+	idle       bool // opWait only: enabled only when no other thread has an enabled transition
 }
 
 type commResult struct {
@@ -410,6 +411,16 @@ func Wait(label string, cond func() bool) {
 	x.park(&op{kind: opWait, site: label, cond: cond, label: label})
 }
 
+// WaitIdle blocks the calling thread until cond holds AND no other thread can take a step: the place
+// of things that happen "when everything has come to rest" (virtual time moving on to the next timer).
+func WaitIdle(label string, cond func() bool) {
+	x := cur
+	if x == nil {
+		return
+	}
+	x.park(&op{kind: opWait, site: label, cond: cond, label: label, idle: true})
+}
+
 // Yield is an always-enabled scheduling point.
 func Yield(label string) {
 	x := cur
@@ -572,6 +583,23 @@ func (x *Exec) enabled() []Transition {
 			freshSeen[s] = true
 		}
 		out = append(out, x.enabledOf(t)...)
+	}
+	// idle waiters run only when nobody else can
+	busy := false
+	for _, tr := range out {
+		if !(tr.T.op.kind == opWait && tr.T.op.idle) {
+			busy = true
+			break
+		}
+	}
+	if busy {
+		kept := out[:0]
+		for _, tr := range out {
+			if !(tr.T.op.kind == opWait && tr.T.op.idle) {
+				kept = append(kept, tr)
+			}
+		}
+		out = kept
 	}
 	return out
 }
